@@ -72,11 +72,15 @@ impl Regs {
         }
     }
     fn key(&self) -> String {
-        let pa = build_pa(&self.pa_ops).map(|p| format!("{:?}", p)).unwrap_or_else(|e| e);
-        format!(
-            "{:?}|{:?}|{:?}|{:?}|{:?}|{:?}|{:?}|{}|{}",
-            self.rs, self.rl, self.ns, self.nl, self.ds, self.dl, self.ct, pa, self.bad.is_some()
-        )
+        // Debug formatting runs the library's validity checks: a panic there must not kill the explorer
+        guarded(|| {
+            let pa = build_pa(&self.pa_ops).map(|p| format!("{:?}", p)).unwrap_or_else(|e| e);
+            format!(
+                "{:?}|{:?}|{:?}|{:?}|{:?}|{:?}|{:?}|{}|{}",
+                self.rs, self.rl, self.ns, self.nl, self.ds, self.dl, self.ct, pa, self.bad.is_some()
+            )
+        })
+        .unwrap_or_else(|p| format!("PANIC while rendering the registers: {} bad={}", p, self.bad.is_some()))
     }
 }
 impl PartialEq for Regs {
@@ -93,6 +97,11 @@ impl Hash for Regs {
 
 /// The invariant.  `Err` describes the first failing register.
 pub fn invariant(s: &Regs) -> Result<(), String> {
+    // a panic escaping from the library through any call below is a violation of this case, not a crash
+    guard_case(|| invariant_unguarded(s))
+}
+
+fn invariant_unguarded(s: &Regs) -> Result<(), String> {
     if let Some(b) = &s.bad {
         return Err(b.clone());
     }
@@ -317,6 +326,18 @@ fn arr<const N: usize>(v: &[u8]) -> [u8; N] {
 /// Apply one action.  Out-of-contract constructor calls may panic (counted);
 /// then the state must be unchanged and still valid.  `None` = no change.
 pub fn apply(m: &Menu, s: &Regs, act: Act) -> Option<Regs> {
+    // a panic escaping from the library through a call that is not individually guarded is a bad state, not a crash
+    match guarded(|| apply_unguarded(m, s, act)) {
+        Ok(r) => r,
+        Err(p) => {
+            let mut b = s.clone();
+            b.bad = Some(format!("panic in {:?}: {}", act, p));
+            Some(b)
+        }
+    }
+}
+
+fn apply_unguarded(m: &Menu, s: &Regs, act: Act) -> Option<Regs> {
     let mut n = s.clone();
     let panicked = |p: String, in_contract: bool, what: &str, n: &Regs| -> Option<Regs> {
         if in_contract {
@@ -724,6 +745,11 @@ fn sweep_acts(v: u8) -> Vec<Act> {
 
 /// One constructor call of the byte-value sweep (a populated register file, one call, the invariant).
 fn sweep_case(shape: u8, act: Act) -> Result<(), String> {
+    // a panic escaping from the library through any call below is a violation of this case, not a crash
+    guard_case(|| sweep_case_unguarded(shape, act))
+}
+
+fn sweep_case_unguarded(shape: u8, act: Act) -> Result<(), String> {
     let menu = sweep_menu(shape);
     let base = sweep_base(&menu);
     invariant(&base)?;
@@ -735,6 +761,11 @@ fn sweep_case(shape: u8, act: Act) -> Result<(), String> {
 /// represents the argument; out-of-contract arguments (longer than 64, symbols >= 64) may panic but the array must
 /// still pass its validity check afterwards (and Debug must not panic).
 fn pa_init_case(prev: &[u8], arg: &[u8]) -> Result<&'static str, String> {
+    // a panic escaping from the library through any call below is a violation of this case, not a crash
+    guard_case(|| pa_init_case_unguarded(prev, arg))
+}
+
+fn pa_init_case_unguarded(prev: &[u8], arg: &[u8]) -> Result<&'static str, String> {
     let mut pa = BlockHashPositionArray::new();
     guarded(|| pa.init_from(prev)).map_err(|p| format!("init_from(prev) panicked: {}", p))?;
     let in_contract = arg.len() <= 64 && arg.iter().all(|&x| x < 64);
@@ -791,6 +822,11 @@ fn pa_sweep_args() -> Vec<Vec<u8>> {
 
 /// `new_from_internals(block_size, ..)` over valid and invalid block sizes, all six types.
 fn block_size_ctor_case(ty: usize, bs: u32) -> Result<&'static str, String> {
+    // a panic escaping from the library through any call below is a violation of this case, not a crash
+    guard_case(|| block_size_ctor_case_unguarded(ty, bs))
+}
+
+fn block_size_ctor_case_unguarded(ty: usize, bs: u32) -> Result<&'static str, String> {
     let valid = bs % 3 == 0 && (bs / 3).is_power_of_two() && (bs / 3) <= (1 << 30);
     macro_rules! one {
         ($t:ty) => {{
